@@ -154,15 +154,34 @@ func preReleaseTable(e *Env, rule string) map[string]string {
 				if la0 == 0 && lb0 == 0 && lalb != 0 || la0 == 0 && lb0 == 1 && lalb != -1 || la0 == 1 && lb0 == 0 && lalb != 1 {
 					continue
 				}
-				o := &ordOracle{ord: map[string]int{"len(a)|0": la0, "len(b)|0": lb0, "len(a)|len(b)": lalb}}
-				ev := &pred.Evaluator{Prog: e.P.SSA, Oracle: o, Summaries: sums}
-				out, err := ev.Eval(dcp, []pred.Val{pred.Sym{Name: "a"}, pred.Sym{Name: "b"}})
 				key := fmt.Sprintf("%d,%d,%d", la0, lb0, lalb)
-				if err != nil {
-					e.S.Unk(rule, site, "lengths "+key, "not decidable by length-order abstraction: "+err.Error(), e.Pos(dcp))
-					return nil
+				// whether the operands are the same text is a further atom a fast path may ask for: forced by the lengths
+				// when they differ (no) or are both zero (yes), open otherwise
+				eqs := []int{1}
+				if lalb == 0 {
+					eqs = []int{1, 0}
+					if la0 == 0 && lb0 == 0 {
+						eqs = []int{0}
+					}
 				}
-				table[key] = out.Ret.String()
+				for _, eq := range eqs {
+					o := &ordOracle{ord: map[string]int{"len(a)|0": la0, "len(b)|0": lb0, "len(a)|len(b)": lalb, "a|b": eq, "b|a": eq}}
+					ev := &pred.Evaluator{Prog: e.P.SSA, Oracle: o, Summaries: sums}
+					out, err := ev.Eval(dcp, []pred.Val{pred.Sym{Name: "a"}, pred.Sym{Name: "b"}})
+					if err != nil {
+						e.S.Unk(rule, site, "lengths "+key, "not decidable by length-order abstraction: "+err.Error(), e.Pos(dcp))
+						return nil
+					}
+					got := out.Ret.String()
+					if eq == 0 && len(eqs) == 2 {
+						// same text: 0, or whatever the general path computes (the code did not look)
+						if got != "0" && got != table[key] {
+							e.S.Bad(rule, site, "lengths "+key+" same text", "for identical pre-release texts the result is "+got+", not 0", e.Pos(dcp), "")
+						}
+						continue
+					}
+					table[key] = got
+				}
 			}
 		}
 	}
